@@ -181,6 +181,41 @@ private:
 typedef vsim_mutex_base<false, mutex> vsim_mutex;
 typedef vsim_mutex_base<true, recursive_mutex> vsim_recursive_mutex;
 
+// Not used by the pinned tree; present so that a change which starts using them stays under
+// the scheduler's control. Shared locking is modelled as exclusive (fewer behaviours, never a
+// blocked baton holder); timed locking polls in simulated time.
+class vsim_shared_mutex : public vsim_mutex
+{
+public:
+  void lock_shared() { lock(); }
+  bool try_lock_shared() { return try_lock(); }
+  void unlock_shared() { unlock(); }
+};
+class vsim_timed_mutex : public vsim_mutex
+{
+public:
+  template <class Rep, class Period>
+  bool try_lock_for(const chrono::duration<Rep, Period> &d)
+  {
+    int64_t left = chrono::duration_cast<chrono::duration<long double, nano>>(d).count() > 4.0e18L
+                       ? INT64_MAX / 2
+                       : (int64_t)chrono::duration_cast<chrono::nanoseconds>(d).count();
+    for (;;)
+    {
+      if (try_lock())
+        return true;
+      if (left <= 0)
+        return false;
+      int64_t step = left < 1000000 ? left : 1000000;
+      if (vsim::in_sim())
+        vsim::sleep_for_ns(step);
+      else
+        this_thread::sleep_for(chrono::nanoseconds(step));
+      left -= step;
+    }
+  }
+};
+
 // ---------------------------------------------------- condition variable
 namespace vsim_detail
 {
@@ -539,6 +574,9 @@ public:
 #define atomic_flag vsim_atomic_flag
 #define mutex vsim_mutex
 #define recursive_mutex vsim_recursive_mutex
+#define shared_mutex vsim_shared_mutex
+#define shared_timed_mutex vsim_shared_mutex
+#define timed_mutex vsim_timed_mutex
 #define condition_variable vsim_condition_variable
 #define thread vsim_thread
 #define this_thread vsim_this_thread
